@@ -97,6 +97,9 @@ func labels(c Case, st runStats) []string {
 	flag(st.deniedFields > 0, "kms-refused-a-field-key")
 	flag(st.prodKeys, "keys:production")
 	flag(st.detKeys, "keys:deterministic")
+	flag(st.keylessWrites > 0, "key-less-node-wrote-field-level-encrypted-field(clear-commit)")
+	flag(st.keylessWriteRefused > 0, "key-less-write-refused")
+	flag(st.holderWriteAboveClear > 0, "key-holder-wrote-encrypted-field-above-a-clear-head")
 	flag(st.keylessDocsInvisible > 0, "key-less:encrypted-doc-invisible")
 	flag(st.keylessFieldsNull > 0, "key-less:encrypted-field-null")
 	flag(st.controlsFound > 0, "control-needles-found")
